@@ -69,7 +69,9 @@ func seedDir(name string) string {
 
 // runSelftests applies each relevant patch to a scratch copy and runs the
 // quick check of the property there.
-func runSelftests(prop string) []selftestResult {
+func runSelftests(prop string) []selftestResult { return runSelftestsP(prop, nil) }
+
+func runSelftestsP(prop string, progress func(selftestResult)) []selftestResult {
 	var res []selftestResult
 	self, _ := os.Executable()
 	for _, m := range loadSeeds() {
@@ -119,6 +121,9 @@ func runSelftests(prop string) []selftestResult {
 				}
 			}()
 			res = append(res, r)
+			if progress != nil {
+				progress(r)
+			}
 		}
 	}
 	return res
@@ -130,14 +135,14 @@ func cmdSelftest(args []string) int {
 		prop = args[0]
 	}
 	bad := 0
-	for _, r := range runSelftests(prop) {
+	runSelftestsP(prop, func(r selftestResult) {
 		st := "ok  "
 		if !r.OK {
 			st = "MISS"
 			bad++
 		}
 		fmt.Printf("%s %-40s %s expect[%s] %s\n", st, r.Name, r.Property, r.Expected, r.Outcome)
-	}
+	})
 	if bad > 0 {
 		return 1
 	}
